@@ -73,6 +73,23 @@ def Bounds.add (a b : Bounds) : Bounds := ⟨a.lo + b.lo, optAddHi a.hi b.hi⟩
 def Bounds.join (a b : Bounds) : Bounds := ⟨min a.lo b.lo, optMaxHi a.hi b.hi⟩
 def Bounds.zero : Bounds := ⟨0, some 0⟩
 
+/-- extremal lengths of the built-in types handled outside the generic semantics, from their hand-written codecs
+(`wow_world_messages/src/manual/**`, `util/functions/shared.rs`): a mask of `m` bytes followed by one payload per set slot;
+a spline list is a u32 count, a full first point and packed further points; `hi = none` where the maximum is not modelled -/
+def primBounds (n : String) : Bounds :=
+  if n == "AuraMask_1_12" then ⟨4, some (4 + 32 * 2)⟩
+  else if n == "AuraMask_2_4_3" then ⟨8, some (8 + 64 * 3)⟩
+  else if n == "AuraMask_3_3_5" then ⟨8, some (8 + 64 * 5)⟩
+  else if n == "EnchantMask" then ⟨2, some (2 + 16 * 2)⟩
+  else if n == "CacheMask" then ⟨4, some (4 + 32 * 4)⟩
+  else if n == "InspectTalentGearMask" then ⟨4, none⟩
+  else if n == "MonsterMoveSplines" then ⟨4, none⟩
+  else if n == "NamedGuid" then ⟨8, some (8 + 256)⟩
+  else if n == "VariableItemRandomProperty" then ⟨4, some 8⟩
+  else if n == "AchievementDoneArray" || n == "AchievementInProgressArray" then ⟨4, none⟩
+  else if n.startsWith "UpdateMask" then ⟨9, none⟩
+  else ⟨0, none⟩
+
 def leafBounds (L : Limits) : Leaf → Bounds
   | .int k _ => ⟨k, some k⟩
   | .bool k => ⟨k, some k⟩
@@ -83,7 +100,7 @@ def leafBounds (L : Limits) : Leaf → Bounds
   | .sizedCString => ⟨5, some L.sizedCStringMax⟩
   | .string => ⟨1, some L.stringMax⟩
   | .packedGuid => ⟨1, some 9⟩
-  | .prim _ => ⟨0, none⟩
+  | .prim n => primBounds n
 
 /-- static environment: largest value a scalar field can carry (`256^k - 1`) -/
 abbrev SEnv := List (Nat × Nat)
